@@ -877,6 +877,9 @@ class Parser(object):
                         line.lower().startswith(kw.lower())):
                     # -- CASE: Line does not start w/ a step-keyword.
                     continue
+                if self._has_longer_step_keyword(line, kw):
+                    # -- CASE: Another step-keyword is a better (longer) match.
+                    continue
 
                 # -- HINT: Trailing SPACE is used for most keywords.
                 # BUT: Keywords in some languages (like Chinese, Japanese, ...)
@@ -906,6 +909,18 @@ class Parser(object):
                                   keyword, step_type, step_text_after_keyword)
                 return step
         return None
+
+    def _has_longer_step_keyword(self, line, keyword):
+        """Indicates if the line starts with a longer step-keyword than this one.
+        In some languages, one step-keyword is the prefix of another one.
+        """
+        line_lower = line.lower()
+        for step_type in ("given", "when", "then", "and", "but"):
+            for kw in self.keywords[step_type]:
+                if len(kw) > len(keyword) and (
+                        line.startswith(kw) or line_lower.startswith(kw.lower())):
+                    return True
+        return False
 
     def _select_last_background_step_type(self):
         # -- CASES:
